@@ -20,6 +20,15 @@ CHECKS = {
 	'C15': ('exploration', 'runtime monitor: set-algebra oracle for range / identity / disjointness / bit symmetry / triangle (2^-22) / width invariance / strict decrease; exhaustive triples over 6-value universes; ASan overlay',
 	        'The real pairwise distance table over all 64 subsets of five 6-value universes (incl. values colliding under 16/32-bit truncation) is computed for every width combination and all 64^3 ordered triples are checked; random triples built to stress the triangle inequality are sampled.',
 	        'Strict decrease demanded only where it is a theorem for rounded values (A != B, |A or B|+1 < 2^22).', 'DESIGN.md 3/C15'),
+	'C05': ('exploration', 'runtime monitor: bit-for-bit per-cell comparison of jaccarddist_array/_matrix/_pairwise with the two-signature function across containers, chunk sizes, index selections, NaN-canary output views, 1..16 OpenMP threads with repetition; ASan/UBSan overlay; ThreadSanitizer overlay with a libgomp-aware report filter',
+	        'Every cell of every bulk call is compared (uint32 view) with the real pairwise function; six container kinds incl. a file on disk, chunk sizes 1..n+2, permuted / repeated index selections, caller buffers surrounded by NaN canaries, thread counts 1..16 with each multi-threaded call repeated; chunk_slices enumerated exhaustively; a slice of the workload runs against ASan+UBSan and TSan builds of the generated C (TSan reports count only when both accesses are inside the OpenMP region on non-pragma lines).',
+	        'Races that neither change a value in any observed run nor survive the TSan filter are out of reach; libgomp is uninstrumented.', 'DESIGN.md 3/C05, 2.4'),
+	'C12': ('exploration', 'runtime monitor: write/read round trips compared with the in-memory original under every index kind; foreign byte contents must be refused with SignaturesFileError',
+	        'Seeded collections over k 1..32 (all four index widths, values up to 4^k-1), both write paths, annotated wrappers, string / int / uint64 ids, metadata with None vs empty string, nested extra, every compression filter of this h5py build; foreign contents: empty, short, text, FASTA, gzip, SQLite, HDF5 of other kinds, user block, magic+junk, truncated copies.',
+	        'NUL in strings and marker-bearing corrupt files are outside the stated domain.', 'DESIGN.md 3/C12'),
+	'C20': ('exploration', 'runtime monitor: plain-list reference model for every index expression on the three collection kinds, SignatureList mutation histories replayed against a list, content-equality matrix',
+	        'For collection lengths 0..7 and the in-memory, list-backed and on-disk kinds every integer (python and 9 numpy scalar types), every slice over the stated range, all boolean masks (n<=5), index lists/arrays in 9 dtypes, out-of-range and ill-typed indices are enumerated and compared with a plain list; seeded mutation histories with a sweep after each step; equality across 4x4 kind pairs and 9 difference classes.',
+	        'Reference model = Python list / NumPy object-array indexing.', 'DESIGN.md 3/C20'),
 }
 
 NOT_APPLICABLE = []
